@@ -1342,9 +1342,6 @@ def run_big(case, drv, N, model, key, tags):
     return ok(nontrivial=True, key=key, tags=tags + ["vars-in-one-factor=9"])
 
 
-NEG_FINDING = "markovchain-negative-start-state-accepted"
-
-
 def run_gibbs_start(case, drv, N, model, key, tags):
     """boundary start states: for every variable position one value out of {-1, 0, card-1, card, card+1} (the others
     valid), through every route: GibbsSampling.sample / generate_sample / set_start_state and the MarkovChain
@@ -1360,7 +1357,7 @@ def run_gibbs_start(case, drv, N, model, key, tags):
     names = [str(N.node[v]) for v in vars_]
     cards = [N.card[v] for v in vars_]
     n = len(vars_)
-    checked, neg_accept = 0, []
+    checked = 0
 
     def valid_rows(rows):
         return all(0 <= int(x) < c for r in rows for x, c in zip(r, cards))
@@ -1405,16 +1402,9 @@ def run_gibbs_start(case, drv, N, model, key, tags):
                     what = "raised KeyError(%s) instead of %s" % (str(e)[:20], "ValueError" if not verdict else "returning")
                 checked += 1
                 if what is not None:
-                    if val == -1:
-                        neg_accept.append((route, start, what))       # diagnosed narrowly: the value -1 only
-                        continue
                     return bad("impl!=model", {"what": "%s, start %r (cardinalities %r): %s" % (route, start, cards, what),
                                                "case": case}, key=key, tags=tags)
     tags += ["start-states=%d" % checked]
-    if neg_accept:
-        return bad("impl!=model", {"what": "a negative start state is not rejected", "examples": neg_accept[:4],
-                                   "cardinalities": cards, "case": case}, finding=NEG_FINDING, key=key,
-                   tags=tags + ["known:" + NEG_FINDING])
     return ok(nontrivial=True, key=key, tags=tags)
 
 
